@@ -1969,7 +1969,8 @@ class Result:
             if len(group) > n_levels:
                 n_larger += 1
                 to_remove.extend(g[2:5] for g in group)
-            elif len(group) < n_levels:
+            elif len(set(map(itemgetter(1),group))) < n_levels:
+                #fewer distinct levels than n_levels (counting rows is not enough: a level can appear twice)
                 n_smaller += 1
                 to_remove.extend(g[2:5] for g in group)
             else:
